@@ -609,6 +609,10 @@ def run_decoders(ctx: Ctx) -> None:
             ctx.count(("dec", reader, l), stream="dec-" + reader)
             ctx.hit(f"dec/{reader}:{'accept' if val is not None else 'reject'}")
             if d != units_wire(val):
+                if reader in COMPILED and ("\n" in l or "\r" in l):
+                    # the batch harness never sends texts with raw line ends to javac/g++ (one literal per line)
+                    ctx.hit(f"dec/{reader}:raw-newline-not-sent")
+                    continue
                 if d == "none" and unmodelled(reader, l):
                     ctx.hit(f"dec/{reader}:unmodelled-accepted-by-toolchain")
                     continue
